@@ -27,7 +27,11 @@ RULE = ("EXHAUSTIVE over the mass table of /repo: for every tolerance in {0.01, 
         "call compared with the stateless oracle and model; the run-time table ATOMIC_MASSES (all module aliases) compared "
         "with an independent re-read of the source at the start, after constructor calls with unknown / odd element names "
         "(elements= / atom_type_elements= / CML, with and without explicit masses) and at the end, each followed by small "
-        "masses (0.05, 0, 0.09, 0.0999, 0.001, -0.05) through both entry points. "
+        "masses (0.05, 0, 0.09, 0.0999, 0.001, -0.05) through both entry points; the SPELLING of the masses in the data "
+        "file (fixed point with 4…10 digits / trailing zeros / leading '+', exponent notation 1.20107e+01 / E / e1 / 120.107e-1 / "
+        "0.0120107e3, %g, '12.' / '.5'; blanks or tabs around the columns): every table element alone, masses on either side of "
+        "the tolerance boundaries in 17-digit exponent notation, non-atomic masses in exponent notation, files with 1…30 types "
+        "each line in its own spelling — the mass being the number the token denotes (exact decimal reading). "
         "Non-trivial = distinct input in which some mass is not an exact table mass, or is the exact mass of an element "
         "that has a heavier element before it in table order (Ar/K, Co/Ni, Te/I, Th/Pa, U/Np, ...).")
 
@@ -160,12 +164,60 @@ def real_guess(ms, tol, default=False, style="kw"):
         return _exc(e)
 
 
-def lmp_text(ms, comments, types, atom_format="full", order=None):
-    """a small LAMMPS data text: masses written with repr (so that float(text) is the same double)"""
+def text_value(text):
+    """the number a mass token denotes, read by our own means (exact decimal -> exact rational), not by the library"""
+    from decimal import Decimal
+    return Fraction(Decimal(text))
+
+
+def spell(rng, m, family=None):
+    """(family, text): one of the spellings of a number that LAMMPS accepts in a data file (utils::is_double:
+    [+-]digits[.digits][(e|E)[+-]digits], also "12." and ".5").  The text may denote a slightly different number than m
+    (fewer digits); the mass of the case is whatever the text denotes (text_value)."""
+    from decimal import Decimal
+    family = family or rng.choice(["repr", "fixed", "fixed-zeros", "plus", "exp", "exp", "exp-upper", "exp-short", "g",
+                                   "shifted", "shifted", "bare-dot"])
+    m = float(m)
+    if family == "fixed":
+        t = "%.*f" % (rng.randint(4, 10), m)
+    elif family == "fixed-zeros":
+        t = "%.*f" % (rng.randint(4, 8), m) + "0" * rng.randint(1, 6)
+    elif family == "plus":
+        t = ("+" if m >= 0 else "") + "%.*f" % (rng.randint(4, 10), m)
+    elif family == "exp":
+        t = "%.*e" % (rng.randint(5, 16), m)                      # 1.20107e+01
+    elif family == "exp-upper":
+        t = "%.*E" % (rng.randint(5, 16), m)                      # 1.20107E+01
+    elif family == "exp-short":                                   # 1.20107e1 / 1.20107e+1 / 1.20107E1
+        mant, ex = ("%.*e" % (rng.randint(5, 16), m)).split("e")
+        t = mant + rng.choice(["e", "E"]) + rng.choice(["", "+"] if int(ex) >= 0 else ["-"]) + str(abs(int(ex)))
+    elif family == "g":
+        t = "%.*g" % (rng.randint(6, 17), m)
+    elif family == "shifted":                                     # 120.107e-1, 0.0120107e3: the decimal point moved by k places
+        k = rng.choice([-3, -2, -1, 1, 2, 3])
+        t = format(Decimal(repr(m)).scaleb(-k), "f") + rng.choice(["e", "E"]) + rng.choice(["%d" % k, "%+d" % k, "%+03d" % k])
+    elif family == "bare-dot":                                    # "12." for whole numbers, ".5" below one, else fixed
+        t = repr(m)
+        if t.endswith(".0"):
+            t = t[:-1]
+        elif t.startswith("0.") and "e" not in t:
+            t = t[1:]
+        elif t.startswith("-0.") and "e" not in t:
+            t = "-" + t[2:]
+    else:
+        t = repr(m)
+    return family, t
+
+
+def lmp_text(ms, comments, types, atom_format="full", order=None, mass_text=None, layout=None):
+    """a small LAMMPS data text: masses written with repr (so that float(text) is the same double), or — mass_text — as the
+    given spellings (one per type, in type order); layout = [leading white space, separator] of the Masses lines"""
+    lead, sep = layout if layout else (" ", " ")
     out = ["verif C14", "", "%d atoms" % len(types), "0 bonds", "", "%d atom types" % len(ms), "",
            " 0.0 10.0 xlo xhi", " 0.0 11.0 ylo yhi", " 0.0 12.0 zlo zhi", "", "Masses", ""]
     for i in (order if order is not None else range(len(ms))):     # `order`: the Masses lines in this order of type ids
-        out.append(" %d %s%s" % (i + 1, repr(float(ms[i])), "" if comments[i] is None else "   # " + comments[i]))
+        out.append("%s%d%s%s%s" % (lead, i + 1, sep, mass_text[i] if mass_text else repr(float(ms[i])),
+                                   "" if comments[i] is None else "   # " + comments[i]))
     out += ["", "Atoms", ""]
     for i, t in enumerate(types):
         if atom_format == "atomic":
@@ -175,10 +227,14 @@ def lmp_text(ms, comments, types, atom_format="full", order=None):
     return "\n".join(out) + "\n"
 
 
-def real_load(ms, tol, comments, types, default=False, via_load=False, atom_format=None, mass_order=None):
-    """atom_format None = the keyword is not passed (default "full"); mass_order: order of the Masses lines in the file"""
+def real_load(ms, tol, comments, types, default=False, via_load=False, atom_format=None, mass_order=None, mass_text=None,
+              layout=None):
+    """atom_format None = the keyword is not passed (default "full"); mass_order: order of the Masses lines in the file;
+    mass_text: how each mass is spelled in the file (default repr); layout: white space of the Masses lines"""
     from mofun import Atoms
-    text = lmp_text(ms, comments, types, atom_format or "full", mass_order)
+    if mass_text is not None and [float(text_value(t)) for t in mass_text] != [float(m) for m in ms]:
+        raise ValueError("mass_text does not denote the masses of the case")       # a generator error, not a finding
+    text = lmp_text(ms, comments, types, atom_format or "full", mass_order, mass_text, layout)
     try:
         with core.quiet():
             f = io.StringIO(text)
@@ -482,7 +538,8 @@ def do_call(T, call):
         return r, oracle_list(T, fms, ftol, r)
     types = call.get("types", [0])
     r = real_load(ms, tol_value(call), call["comments"], types, default=call.get("default", False),
-                  via_load=call.get("via_load", False), atom_format=call.get("atom_format"), mass_order=call.get("mass_order"))
+                  via_load=call.get("via_load", False), atom_format=call.get("atom_format"), mass_order=call.get("mass_order"),
+                  mass_text=call.get("mass_text"), layout=call.get("layout"))
     bad = oracle_load(T, fms, ftol, call["comments"], r)
     if not bad and "ok" in r and (r["atom_elements"] != [r["ok"]["elements"][t] for t in types] or r["types"] != list(types)):
         bad = "per-atom elements / types do not follow the type table"
@@ -551,7 +608,7 @@ def run(ctx, oracle_only=False):
         return any((float(m) not in exact) for m in ms) or any(float(m) == float(masses[s]) for m in ms for s in ooo)
 
     seen = {}      # mass -> earlier calls of this process that involved it (what a replay has to run first)
-    CALL_KEYS = ("op", "masses", "tol", "tol_type", "default", "style", "comments", "types", "via_load", "atom_format", "mass_order")
+    CALL_KEYS = ("op", "masses", "tol", "tol_type", "default", "style", "comments", "types", "via_load", "atom_format", "mass_order", "mass_text", "layout")
 
     def earlier(call):
         out = []
@@ -887,6 +944,77 @@ def run(ctx, oracle_only=False):
             impls.append({"ok": r["ok"]})
             skip.append(any(ambiguous(T, fr(m), fr(0.1)) for m in ms))
 
+    # 5. the SPELLING of the masses in the file: a LAMMPS data file may write a mass in any notation LAMMPS reads — fixed
+    #    point with few / many digits, trailing zeros, a leading "+", exponent notation ("1.20107e+01", "1.20107E1",
+    #    "120.107e-1", "0.0120107e3": what '%e' / '%g' / numpy printing produce), "12." / ".5" — and with any white space
+    #    around the columns.  The mass of a type is the NUMBER its token denotes (read here by exact decimal arithmetic,
+    #    text_value); the element must be the nearest table element to that number, however it is spelled.
+    layouts = [[" ", " "], ["", " "], ["  ", "   "], ["\t", "\t"], [" ", "\t"], ["    ", "  "]]
+    exp_families = ["exp", "exp-upper", "exp-short", "shifted"]
+
+    def spelled(ms, families=None):
+        """[(spelling, the double it denotes)] for the masses ms"""
+        texts = [spell(rng, m, families[i] if families else None) for i, m in enumerate(ms)]
+        for fam, _ in texts:
+            ctx.count("spelling:" + fam)
+        return [t for _, t in texts], [float(text_value(t)) for _, t in texts]
+
+    # 5a. every element of the table alone, its mass in an exponent spelling and in a random one (default tolerance)
+    for s_, M in T:
+        for fam in (rng.choice(exp_families), None):
+            texts, ms = spelled([float(M)], [fam])
+            call_case(mk("load_elements", ms, 0.1, default=True, mass_text=texts, layout=rng.choice(layouts),
+                         comments=[rng.choice([None, s_ + "_x"])], types=[0] * rng.randint(1, 3), via_load=rng.random() < 0.3),
+                      [], "spelling-single")
+    # 5b. masses on either side of the tolerance boundary, in full-precision exponent spellings (17 significant digits
+    #     denote the same double), and non-atomic masses below / between / above the table in short exponent spellings
+    for k in range(ctx.n(120, 1200)):
+        tol = rng.choice(tolerances(ctx))
+        M = float(masses[rng.choice(syms)])
+        m = M + rng.choice([1, -1]) * (tol + rng.choice([-EPS, EPS, -tol / 3, tol / 3]))
+        t = "%.16e" % m
+        if k % 3 == 1:
+            t = t.upper()
+        elif k % 3 == 2:
+            mant, ex = t.split("e")
+            t = mant + "e" + str(int(ex))
+        ctx.count("spelling:exp-full")
+        call_case(mk("load_elements", [float(text_value(t))], tol, mass_text=[t], default=(tol == 0.1 and k % 2 == 0),
+                     layout=rng.choice(layouts)), [], "spelling-boundary")
+    for m in (1e3, 1.7e3, 1e5, 1e6, 1e-3, 1e-5, 2.5, 13.0, 0.5, 0.0, 100.0, 5e2, 4.0026e2, 1.00794e1, 1.00794e2, 1.20107e3):
+        for fam in exp_families + ["g", "bare-dot"]:
+            if fam == "shifted" and not 1e-3 <= m <= 1e6:
+                continue
+            texts, ms = spelled([m], [fam])
+            tol = rng.choice([0.1, 0.5, 0.01])
+            call_case(mk("load_elements", ms, tol, default=(tol == 0.1), mass_text=texts, layout=rng.choice(layouts)), [],
+                      "spelling-off-table")
+    # 5c. files with several types (1…6, sometimes 10…30), every line in its own spelling, sometimes one bad mass, sometimes
+    #     the Masses lines shuffled, labels all / none / partial
+    for k in range(ctx.n(150, 1500)):
+        tol = rng.choice(tolerances(ctx))
+        n = rng.randint(10, 30) if k % 6 == 5 else rng.randint(1, 6)
+        els = [rng.choice(syms) for _ in range(n)]
+        if k == 0:
+            n, els, tol = 3, ["Ca", "C", "O"], 0.1
+        ms = [float(masses[e]) + rng.choice([0.0, 0.0, 0.0, tol / 2, -tol / 2]) for e in els]
+        if rng.random() < 0.3:
+            ms[rng.randrange(n)] = rng.choice([13.0, 2.5, 1000.0, 1700.0, 100.0, 0.0, float(masses[rng.choice(syms)]) + 2 * tol + 0.37])
+        fams = [rng.choice(exp_families) for _ in range(n)] if k % 3 == 0 else None
+        texts, ms = spelled(ms, fams)
+        style = rng.choice(["all", "none", "partial"])
+        comments = [("%s_t%d" % (els[i], i + 1)) if (style == "all" or (style == "partial" and rng.random() < 0.5)) else None
+                    for i in range(n)]
+        types = [rng.randrange(n) for _ in range(rng.randint(1, 8))]
+        order = None
+        if k % 4 == 3 and n > 1:
+            order = list(range(n))
+            rng.shuffle(order)
+        extra = {} if order is None else {"mass_order": order}
+        call_case(mk("load_elements", ms, tol, default=(tol == 0.1 and k % 2 == 0), mass_text=texts, layout=rng.choice(layouts),
+                     comments=comments, types=types, via_load=k % 5 == 1, atom_format=[None, "full", "atomic"][k % 3], **extra),
+                  [], "spelling-multi")
+
     bad = table_check(T)
     ctx.case({"op": "table-check", "stage": "end", "constructs": []}, nontrivial=False)
     if bad:
@@ -962,5 +1090,6 @@ def replay(ctx, rec):
     if inp["op"] == "guess":
         return oracle_list(T, [fr(m) for m in ms], fr(tol), real_guess(ms, tol, default=inp.get("default", False))) is None
     r = real_load(ms, tol, inp["comments"], inp.get("types", [0]), default=inp.get("default", False), via_load=inp.get("via_load", False),
-                  atom_format=inp.get("atom_format"), mass_order=inp.get("mass_order"))
+                  atom_format=inp.get("atom_format"), mass_order=inp.get("mass_order"), mass_text=inp.get("mass_text"),
+                  layout=inp.get("layout"))
     return oracle_load(T, [fr(m) for m in ms], fr(tol), inp["comments"], r) is None
